@@ -1,7 +1,10 @@
 B = 'src/bookmarks.rs'
+D = 'src/document.rs'
+SLICE = dict(rule='R5', lit='&children[..]', to='children.as_slice()', count=2, note='`&v[..]` of a Vec written `v.as_slice()` (same slice; vstd states its view at the call)')
 O = 'src/object.rs'
 UNIT = dict(
     properties=['C17'],
+    rlimit=80,
     prelude=['arch64.rs', 'containers.rs'],
     types=[
         dict(file=O, kind='type', name='ObjectId'),
@@ -9,5 +12,7 @@ UNIT = dict(
     ],
     functions=[
         dict(file=B, impl='Document', name='add_bookmark', rules=dict(no_sink=True)),
+        dict(file=D, impl='Document', name='recursive_fix_pages', rules=dict(no_sink=True, pre_subst=[SLICE])),
+        dict(file=D, impl='Document', name='adjust_zero_pages', rules=dict(no_sink=True)),
     ],
 )
